@@ -266,6 +266,8 @@ def mEq : M :=
      .call .other "y" (mY info) (fun s => { self := s.other }) (fun s _ => s))
     (.ite (fun _ => true) loadB (.ret fun _ => .ok .none)) ;;
   .ite (fun s => !((infoOf info s .self).curve.eqv (infoOf info s .other).curve)) (.ret fun _ => .ok (.bool false)) .skip ;;
+  .ite (fun s => s.ca.2.1 == 0 || s.ca.2.2 == 0 || s.cb.2.1 == 0 || s.cb.2.2 == 0)
+    (.ret fun s => .ok (.bool ((s.ca.2.1 == 0 || s.ca.2.2 == 0) && (s.cb.2.1 == 0 || s.cb.2.2 == 0)))) .skip ;;
   .ret fun s =>
     let p := (infoOf info s .self).curve.p
     .ok (.bool (Curve.coordsEq p s.ca.1 s.ca.2.1 s.ca.2.2 s.cb.1 s.cb.2.1 s.cb.2.2))
